@@ -107,6 +107,10 @@ class DependentType(type):
                     return Order.NONE
             else:  # pragma: no cover
                 return order
+        elif is_dependent(other):
+            # A union, intersection... with value-dependent members: whether
+            # it covers the bound depends on values, let it decide
+            return NotImplemented
         elif subclasscheck(other, self.bound) or subclasscheck(
             self.bound, other
         ):
